@@ -1240,3 +1240,16 @@ Proof. vm_compute. repeat split; reflexivity. Qed.
 Lemma accounting ctl st : reachable ctl st ->
   Acct (pending_rids st) (c_done st) (c_submitted st) (c_cancelled st).
 Proof. intros H. exact (inv_acct _ (inv_reachable _ _ H)). Qed.
+
+Lemma td_progress_reachable ctl st e : reachable ctl st ->
+  c_status st = TearingDown e \/ c_status st = Draining e ->
+  exists st', td_next st = Some st' /\ (td_measure st' < td_measure st)%nat /\
+    (c_status st' = TearingDown e \/ c_status st' = Draining e \/
+     (c_status st' = Broken e /\ pending_rids st' = [] /\ c_err_sent st' = true)).
+Proof. intros H. exact (td_next_progress st e (inv_reachable _ _ H)). Qed.
+
+Lemma td_terminates_reachable ctl n st e : reachable ctl st ->
+  c_status st = TearingDown e \/ c_status st = Draining e -> (td_measure st <= n)%nat ->
+  c_status (teardown n st) = Broken e /\ pending_rids (teardown n st) = [] /\
+  c_err_sent (teardown n st) = true.
+Proof. intros H. exact (td_terminates n st e (inv_reachable _ _ H)). Qed.
